@@ -150,7 +150,15 @@ class SweepExtractor:
     # index helpers -----------------------------------------------------
     def idx(self, e, container='A'):
         length = self.Lv + ONE if container == 'qD' else self.Lv
-        return index_affine(e, length, self.env_affine())
+        # the number of sites written as len(<object>.A) / <object>.nsites inside an index
+        lenmap = {f'{self.psi}.A': self.Lv, f'{self.ham}.A': self.Lv, f'{self.psi}.qD': self.Lv + ONE}
+        attrs = {f'{self.psi}.nsites': self.Lv, f'{self.ham}.nsites': self.Lv}
+        a = try_affine(e, self.env_affine(), attrs, lenmap)
+        if a is None:
+            return None
+        if a.is_const() and a.c < 0:
+            a = a + length
+        return a
 
     def env_affine(self):
         return {k: v for k, v in self.env.items() if isinstance(v, Affine) and k.isidentifier()}
@@ -437,7 +445,8 @@ class SweepMachine:
                 return self.run(parts, st)
         ea = self.x.env_affine()
         lenmap = {f'{self.psi}.A': self.Lv, 'self.A': self.Lv, 'BR': self.Lv, 'BL': self.Lv}
-        args = [try_affine(a, ea, len_syms=lenmap) for a in it.args]
+        attrs = {f'{self.psi}.nsites': self.Lv, f'{self.ham}.nsites': self.Lv, 'self.nsites': self.Lv}
+        args = [try_affine(a, ea, attrs, lenmap) for a in it.args]
         if any(a is None for a in args):
             raise AnalysisError(f'{self.fi.qual}: bounds of `{norm(s.iter)}` are not affine')
         if args[-1].syms() - {'L'}:
